@@ -220,3 +220,21 @@ prop("C12",
      trusted_base=["bufio.Reader semantics", "vlapi/mqttp codec", "runtime.MemStats"],
      assumptions=["bufio's direct-read optimisation and finite buffer size are abstracted (they change chunking only, which the theorem quantifies over)"],
 )
+
+prop("C08",
+     coq=["model/Trie.v", "model/Deliver.v", "proofs/DeliverProofs.v", "chk/C08chk.v", "props/C08.v", "refute/C08.v"],
+     n={"quick": 500, "thorough": 14000, "search": 2000},
+     shrink_fields=["subs"], shrink_min=1,
+     rule="4/5 'live': one publish on t/a (QoS 0-2, RETAIN 35%, by the subscribing session itself 30% or by another client; publisher v3.1.1 or v5) against one session (v3.1.1 or v5) holding 1-3 distinct matching "
+          "filters from {t/a, t/+, t/#, #, +/a} with generated granted QoS, No-Local, Retain-As-Published and subscription identifier (v5), overlap option on 40% (then No-Local/RAP uniform); "
+          "1/5 'retained': a retained message (QoS 0-2, publisher v3.1.1 or v5) then a new subscription (granted QoS 0-2, Retain Handling 0-2, RAP; v5 subscribers announce a Topic Alias Maximum). "
+          "Barrier: QoS0 + QoS1 markers on the publishing connection. Every PUBLISH received is decoded: QoS, RETAIN, DUP, ALL subscription identifiers (raw bytes), topic and payload intact; "
+          "the multiset of copies is compared with the model. DUP=1 on retransmission is checked by C03's harness. non-trivial = every case; distinct by case JSON.",
+     level_text="Theorems (coq/props/C08.v) over the executable model of the collection walk + subscriber.Publish: for EVERY list of matching subscriptions, published QoS and flags: overlap off -> exactly one copy per "
+                "matching subscription that is not (No-Local and own publish), QoS = min(published, granted), RETAIN = RAP && published RETAIN, DUP = 0, exactly that subscription's identifier; overlap on (uniform options) -> "
+                "exactly one copy at min(published, highest granted) with all identifiers; QoS never above the published one; a No-Local subscription never gets its own publish. refute/C08.v: the pre-repair shape. "
+                "Tied by field-by-field differential runs over publisher/subscriber version pairs. Partial: with overlap on and mixed No-Local/RAP the property text does not fix the outcome (not claimed); topic/payload integrity is tested, not modelled.",
+     level_note="Trusted: Coq kernel + vm_compute; hand translation of overlapping/nonOverlappingSubscribers, acquire, subscriber.Publish and the retained path of SignalSubscribe; vlapi codec (identifiers read from raw bytes).",
+     trusted_base=["vlapi/mqttp codec"],
+     assumptions=["which subscriptions match is C01's theorem; here they are given"],
+)
